@@ -284,7 +284,7 @@ pub fn show(case: &Case) -> serde_json::Value {
 fn stages(tier: Tier) -> Vec<Box<dyn Stage>> {
     vec![
         gen_stage_show("inproc", RULE, tier.pick(32_000, 600_000), 2000, case_strategy, check_inproc, show),
-        gen_stage_show("cli", RULE, tier.pick(2400, 40_000), 300, case_strategy, check_cli, show),
+        gen_stage_show("cli", RULE, tier.pick(4000, 60_000), 300, case_strategy, check_cli, show),
     ]
 }
 
